@@ -25,6 +25,7 @@ import struct
 from vcore import Infra, canon, hexs, pyres
 
 KEYTYPES = ["ecc256", "ecc384", "ecc521", "rsa2048"]
+_QUICK = [False]          # set by run(): the quick tier skips the one perturbation that costs ~40 s
 TARGET_MEMS = ["standard", "nand_2k", "nand_4k", "serial_downloader", "nor"]
 HASHES = ["sha256", "sha384", "sha512"]
 
@@ -469,38 +470,6 @@ def mark_cert_rows(rows_l):
         r["cert"] = r["family"] in fams and 2 in r["container_types"]
 
 
-def f_cert_rsa(case):
-    """C06-cert-rsa-pss: a certificate under RSA SRKs (signed RSA-PSS, verified by AhabCertificate.verify as PKCS#1 v1.5)."""
-    return any(c.get("cert") and str(c["srk"]).startswith("rsa") for c in case["containers"])
-
-
-def f_cert_unpadded(case):
-    """C06-cert-eq-padding: a certificate configured without UUID or with less than 12 bytes of permission data; the parsed
-    object holds the zero-padded fields and AhabCertificate.__eq__ compares the raw attributes."""
-    return any(c.get("cert") and (not c["cert"]["uuid"] or len(c["cert"]["permdata"] or "") < 24) for c in case["containers"])
-
-
-def sb_equal_modulo_cert_padding(p, o):
-    """signature blocks equal when the two certificates are compared by every attribute of AhabCertificate.__eq__ with UUID and
-    permission data zero-padded to their field widths (and by their exported bytes)"""
-    cp, co = p.certificate, o.certificate
-    if (cp is None) != (co is None):
-        return False
-    if cp is None:
-        return p == o
-    try:
-        p.certificate = o.certificate = None
-        rest = p == o
-    finally:
-        p.certificate, o.certificate = cp, co
-    pad = lambda b, n: bytes(b or b"").ljust(n, b"\0")      # noqa: E731
-    return (rest and bytes(cp.export()) == bytes(co.export()) and cp._permissions == co._permissions and cp.fuse_version == co.fuse_version
-            and pad(cp.permission_data, 12) == pad(co.permission_data, 12) and pad(cp._uuid, 16) == pad(co._uuid, 16)
-            and cp.signature_offset == co.signature_offset and cp.length == co.length
-            and cp.public_key_0 == co.public_key_0 and cp.signature_0 == co.signature_0
-            and cp.public_key_1 == co.public_key_1 and cp.signature_1 == co.signature_1)
-
-
 CERT_PERMS = {"container": 0x01, "debug": 0x02, "secure_fuse": 0x08, "return_life_cycle": 0x10, "patch_fuses": 0x40}
 
 
@@ -549,7 +518,7 @@ def indep_cert(binary, co, cc):
         return "the record's hash field is not the hash of the SRK data block"
     so = co + sigoff
     sver, slen, stag = struct.unpack_from("<BHB", binary, so)
-    if stag != 0xD8 or slen <= 8 or sigoff + slen != length:
+    if stag != 0xD8 or sver != 0 or slen <= 8 or sigoff + slen != length:
         return "certificate signature container / certificate length"
     if not indep_verify(kt, cc["used"], binary[co: so], binary[so + 8: so + slen]):
         return "the certificate signature does not verify under the used SRK over certificate[: signature offset]"
@@ -611,12 +580,6 @@ def _run_case(cx, case, tag):
     e1 = verifier_errors(v1[1])
     rexp = pyres(ahab.export)
     overfull = any(c.get("overfull") for c in case["containers"])
-    if f_cert_rsa(case) and not overfull and (e1 or rexp[0] != "ok"):
-        # open finding: the (correctly PSS-signed) RSA certificate is verified as PKCS#1 v1.5 and so reported invalid
-        narrow = all("Certificate" in x or x.endswith("Container signing/Signature #0/Signature") for x in e1) and rexp[0] in ("ok", "E:spsdk")
-        s.expect(False, case, "a valid image with an RSA certificate is reported as erroneous by verify() / refused by export()", (e1[:3], rexp[0]),
-                 finding="C06-cert-rsa-pss" if narrow else None)
-        return None
     if overfull:
         # a container that does not fit its fixed slot: the only acceptable outcome is a reported error and no export
         s.expect(bool(e1) and rexp[0] == "E:spsdk", case, "a container overlapping the next container slot is not refused", (e1, rexp[0]))
@@ -658,13 +621,8 @@ def _run_case(cx, case, tag):
     if s.expect(rp[0] == "ok", case, "parse() refuses the exported image", rp):
         same = (len(a2.ahab_containers) == len(ahab.ahab_containers)
                 and all(p == o and p.signature_block == o.signature_block for p, o in zip(a2.ahab_containers, ahab.ahab_containers)))
-        fpad = None
-        if not same and f_cert_unpadded(case) and len(a2.ahab_containers) == len(ahab.ahab_containers) \
-                and all(p == o and sb_equal_modulo_cert_padding(p.signature_block, o.signature_block)
-                        for p, o in zip(a2.ahab_containers, ahab.ahab_containers)):
-            fpad = "C06-cert-eq-padding"
-        s.expect(same, case, "parse(export(x)) is not equal to x (containers, image entries or signature blocks)",
-                 [repr(c) for c in a2.ahab_containers], finding=fpad)
+        s.expect(same, case, "parse(export(x)) is not equal to x (containers, image entries, signature blocks, certificates)",
+                 [repr(c) for c in a2.ahab_containers])
         if cx.drv is not None:
             got = cx.drv.ask(f"parse v{case['ver']} {row['containers_max_cnt']} {hexs(binary)}")
             real_d = real_parse_dump(a2)
@@ -686,6 +644,21 @@ def _run_case(cx, case, tag):
                 want = eo.image + bytes(eo.image_size - len(eo.image))
                 s.expect(binary[eo.image_offset: eo.image_offset + eo.image_size] == want and e2_.image == want[: len(e2_.image)],
                          case, "an image-array entry does not point at the bytes of its image", eo.image_offset)
+        # ---------------- parse -> create_config -> load_from_config -> export is the identity (plain images; a serial-downloader
+        # configuration cannot carry image offsets, so gaps of the original layout are not reproducible from it)
+        if rp[0] == "ok" and case["tm"] != "serial_downloader" and not any(c["srk"] or c["blob"] for c in case["containers"]):
+            dcfg = os.path.join(cx.scratch, f"{tag}_cfg")
+            os.makedirs(dcfg, exist_ok=True)
+            rc_ = pyres(a2.create_config, dcfg)
+            if s.expect(rc_[0] == "ok", case, "create_config() raises on a parsed image", rc_):
+                r3 = pyres(AHABImage.load_from_config, rc_[1], [dcfg])
+                again = None
+                if r3[0] == "ok" and pyres(r3[1].update_fields)[0] == "ok":
+                    rx3 = pyres(r3[1].export)
+                    again = bytes(rx3[1]) if rx3[0] == "ok" else None
+                s.expect(again == binary, (case, "config-roundtrip"),
+                         "export(load_from_config(create_config(parse(file)))) is not the file (e.g. container generation, offsets, flags lost)",
+                         r3[0] if again is None else first_diff(again.hex(), binary.hex()))
     # ---------------- independent check of the binary
     deks = [(c["blob"]["dek"][: c["blob"]["size"] // 4] if c["blob"] else None) for c in case["containers"]]
     info = {"binary": binary, "deks": deks, "row": row, "ahab": ahab}
@@ -798,7 +771,9 @@ def authenticated_positions(case, binary, rep):
             signed.append((so, sl))      # the signature itself
             if cc.get("cert") and int(r["cert"]):
                 co = base + int(r["sbo"]) + int(r["cert"])
-                certs.append((co, struct.unpack_from("<H", binary, co + 1)[0]))
+                clen, csig = struct.unpack_from("<HxH", binary, co + 1)
+                certs.append((co, csig))                                   # the part the SRK signs
+                certs.append((co + csig + 8, clen - csig - 8))             # the signature bytes (their 8-byte header is not authenticated)
         else:
             n = len(imgs)
             for i in range(n):           # hash and (for encrypted entries) IV fields of unsigned containers
@@ -943,7 +918,9 @@ PERTURB = [
     ("c.tag", "c", lambda r, c: [0, 0x87, 0x86, 255, 256, -1], _set("tag")),
     ("c.version", "c", lambda r, c: [0, 1, 2, 255, 256, -1], _set("version")),
     ("e._image_offset", "e", lambda r, e: [e._image_offset + 0x400, (1 << 32) - 0x400, 1 << 32, -0x400], _set("_image_offset")),
-    ("e.image_size", "e", lambda r, e: [e.image_size + 1, e.image_size - 1, e.image_size + 4, 0, 1 << 32], _set("image_size")),
+    # (1 << 32, the first value outside the field, makes verify() hash 4 GiB of padding - about 40 s: thorough tier only)
+    ("e.image_size", "e", lambda r, e: [e.image_size + 1, e.image_size - 1, e.image_size + 4, 0] + ([] if _QUICK[0] else [1 << 32]),
+     _set("image_size")),
     ("e.load_address", "e", lambda r, e: [0, (1 << 64) - 1, 1 << 64, (1 << 64) + 1, 1 << 32, -1], _set("load_address")),
     ("e.entry_point", "e", lambda r, e: [0, (1 << 64) - 1, 1 << 64, 1 << 70, -1], _set("entry_point")),
     ("e.image_meta_data", "e", lambda r, e: [0, (1 << 32) - 1, 1 << 32, (1 << 32) + 5, -1], _set("image_meta_data")),
@@ -973,11 +950,14 @@ def verify_stream(cx, nper):
     from spsdk.exceptions import SPSDKError
     from spsdk.image.ahab.ahab_image import AHABImage
     ck, rng, s = cx.ck, cx.ck.rng, cx.s_verify
+    import time as _t
     rows = list(cx.rows.values())
     n = 0
+    acc = cx.ck.extra.setdefault("verify_range_seconds", {"build": 0.0, "real": 0.0, "model": 0.0})
     for name, target, vals, setter in [(p[0], p[1], p[2], p[3]) for p in PERTURB for _ in range(nper)]:
         i = 0
         while True:
+            t0_ = _t.time()
             row = rng.choice(rows)
             tm = rng.choice(TARGET_MEMS)
             case = gen_case(rng, row, tm, True, {"srk": None, "ncont": rng.choice([1, 1, 2]), "nimg": rng.choice([1, 2])})
@@ -1002,6 +982,7 @@ def verify_stream(cx, nper):
                 s.expect(False, case, "a valid unsigned AHAB configuration cannot be built", r)
                 break
             ahab = r[1]
+            acc["build"] += _t.time() - t0_
             c = rng.choice(ahab.ahab_containers)
             e = rng.choice(c.image_array)
             obj = {"c": c, "e": e, "sb": c.signature_block, "sbblob": c.signature_block, "blob": c.signature_block.blob, "img": ahab}[target]
@@ -1025,6 +1006,7 @@ def verify_stream(cx, nper):
                 ck.infra_notes.append(f"perturbation {name}: {type(exc).__name__}")
                 continue
             inp = {"case": case, "perturb": name, "value": value if isinstance(value, int) else repr(value)[:80], "state": None}
+            t1_ = _t.time()
             ov = pyres(lambda: ahab.image_info().validate())
             lines = vlines(case, ahab, ov[0] == "ok", row["allow_empty_hash"])
             inp["state"] = lines[1:]
@@ -1035,8 +1017,13 @@ def verify_stream(cx, nper):
             cerrs = None if any(x[0] != "ok" for x in cres) else [e_ for x in cres for e_ in verifier_errors(x[1])]
             errs = verifier_errors(rv[1]) if rv[0] == "ok" else None
             s.note(inp, cls=name + ("/raises" if cerrs is None else "/error" if cerrs else "/clean") + ("" if rv[0] == "ok" else "+image-raises"))
+            acc["real"] += _t.time() - t1_
+            if _t.time() - t1_ > 1.0:
+                acc.setdefault("slow", []).append([name, value if isinstance(value, int) else repr(value)[:40], round(_t.time() - t1_, 1)])
             if cx.drv is not None:
+                t2_ = _t.time()
                 ans = cx.drv.batch(lines + ["cverify", "verify"])
+                acc["model"] += _t.time() - t2_
 
                 def cmp(real_errs, model, what):
                     real_c = ("errors", sorted(set(x.rsplit("/", 1)[-1] for x in real_errs))) if real_errs else "clean"
@@ -1203,11 +1190,8 @@ def cli_stream(cx, picks):
         with open(cfg_path, "w", encoding="utf-8") as fh:
             yaml.safe_dump(cfg, fh)
         s.note(case, cls="signed" if any(c["srk"] for c in case["containers"]) else "plain")
-        # C06-cli-v2-single-table: write_ahab_fuses asks a version-2 container for the hash of a second SRK table it does not have
-        f_idx = lambda r: ("C06-cli-v2-single-table" if case["ver"] == 2 and any(c["srk"] for c in case["containers"])
-                           and r[2] and "IndexError" in r[2] else None)
         rc = invoke(["ahab", "export", "-c", cfg_path])
-        s.expect(rc[0] == 0, case, "`nxpimage ahab export` fails on a valid configuration", rc, finding=f_idx(rc))
+        s.expect(rc[0] == 0, case, "`nxpimage ahab export` fails on a valid configuration", rc)
         if not os.path.exists(cfg["output"]):
             continue
         with open(cfg["output"], "rb") as fh:
@@ -1219,10 +1203,14 @@ def cli_stream(cx, picks):
             independent_ok(cx, case, cli_bin, rep, None, report_to=s)
             mask = bytearray(len(cli_bin))
             if rep.startswith("ok:"):
-                for r in parse_report(rep):
+                for r, cc_ in zip(parse_report(rep), case["containers"]):
                     if "sigdata" in r:
                         so, sl = (int(x) for x in r["sigdata"].split(":"))
                         mask[so: so + sl] = b"\x01" * sl
+                    if cc_.get("cert") and int(r["cert"]):                     # the certificate is signed anew as well
+                        co = int(r["base"]) + int(r["sbo"]) + int(r["cert"])
+                        clen, csig = struct.unpack_from("<HxH", cli_bin, co + 1)
+                        mask[co + csig + 8: co + clen] = b"\x01" * (clen - csig - 8)
             same = len(cli_bin) == len(api_bin) and all(m or a == b for a, b, m in zip(cli_bin, api_bin, mask))
             s.expect(same, case, "the file written by `nxpimage ahab export` differs from AHABImage.export() outside the signature bytes",
                      first_diff(cli_bin.hex(), api_bin.hex()))
@@ -1242,7 +1230,7 @@ def cli_stream(cx, picks):
         s.expect(rb[0] != 0, case, "`nxpimage ahab verify` accepts an image with a corrupted image byte", rb)
         rp = invoke(["ahab", "parse", "-f", case["family"], "-b", cfg["output"], "-o", os.path.join(d, "parsed")])
         pc = os.path.join(d, "parsed", "parsed_config.yaml")
-        s.expect(rp[0] == 0, case, "`nxpimage ahab parse` fails on an exported image", rp, finding=f_idx(rp))
+        s.expect(rp[0] == 0, case, "`nxpimage ahab parse` fails on an exported image", rp)
         if not os.path.exists(pc):
             continue
         plain = not any(c["srk"] or c["blob"] for c in case["containers"])
@@ -1277,7 +1265,7 @@ def cert_stream(cx):
         return
     kd = keydir()
     n = 0
-    for kt in KEYTYPES[:3]:
+    for kt in KEYTYPES:
         row = rows[n % len(rows)]
         case = gen_case(rng, row, "standard", True, {"ver": 2, "srk": kt, "cert": True, "ncont": 1, "nimg": 1})
         case["containers"][0]["cert"]["perm"] = ["container", "debug"]
@@ -1296,6 +1284,7 @@ def cert_stream(cx):
              None, {"signing_key_0": f"{kd}/{kt}/srk{(used + 1) % 4}_{kt}.pem"}, False),
             ("the certificate's key is of another type than the SRKs",
              {"signing_key": f"{kd}/{other_kt}/imgkey_{other_kt}.pem"}, {"public_key_0": f"{kd}/{other_kt}/imgkey_{other_kt}.pub"}, False),
+            ("good, without UUID and permission data", None, {"uuid": None, "permission_data": None}, True),
         ]
         good_cert = None
         for what, cpatch, certpatch, want_ok in variants:
@@ -1309,7 +1298,11 @@ def cert_stream(cx):
             if certpatch:
                 with open(cc["certificate"], encoding="utf-8") as fh:
                     cj = json.load(fh)
-                cj.update(certpatch)
+                for k_, v_ in certpatch.items():
+                    if v_ is None:
+                        cj.pop(k_, None)
+                    else:
+                        cj[k_] = v_
                 with open(cc["certificate"], "w", encoding="utf-8") as fh:
                     json.dump(cj, fh)
             r = pyres(AHABImage.load_from_config, cfg, [cx.scratch])
@@ -1325,6 +1318,11 @@ def cert_stream(cx):
                 s.expect(not errs and rx[0] == "ok", inp, "a valid certificate chain is reported as erroneous", (errs[:3], rx[0]))
                 if rx[0] == "ok":
                     good_cert = bytes(ahab.ahab_containers[0].signature_block.certificate.export())
+                    a2 = AHABImage(case["family"], case["revision"], case["tm"])
+                    rp2 = pyres(a2.parse, bytes(rx[1]))
+                    s.expect(rp2[0] == "ok" and a2.ahab_containers[0].signature_block == ahab.ahab_containers[0].signature_block
+                             and a2.ahab_containers[0].signature_block.certificate == ahab.ahab_containers[0].signature_block.certificate,
+                             inp, "parse(export(x)) != x for a container with a certificate", rp2[0])
             else:
                 s.expect(bool(errs) and rx[0] != "ok", inp, "a broken chain of trust (" + what + ") is NOT refused by verify()/export()",
                          (errs[:3], rx[0]))
@@ -1343,8 +1341,10 @@ def cert_stream(cx):
             inp = {"certificate": good_cert.hex(), "length_field": length + d}
             s.note(inp, nontrivial=True, cls=f"{kt}/length")
             rp = pyres(AhabCertificate.parse, bytes(bad) + bytes(16))
-            s.expect(rp[0] != "ok", inp, "AhabCertificate.parse accepts a certificate whose length field contradicts its content", rp[0],
-                     finding="C06-cert-length-check")
+            s.expect(rp[0] != "ok", inp, "AhabCertificate.parse accepts a certificate whose length field contradicts its content", rp[0])
+            if cx.drv is not None:
+                s.compare((inp, "parse"), "none", cx.drv.ask("certparse " + hexs(bytes(bad) + bytes(16))),
+                          "the certificate parser model accepts a wrong length field")
         bad = bytearray(good_cert)
         bad[6] ^= 0x10
         inp = {"certificate": good_cert.hex(), "inverted_permissions": bad[6]}
@@ -1390,8 +1390,8 @@ def run(ck):
     ck.assume("signatures are produced by OpenSSL through spsdk.crypto; the model takes the real signature bytes as input and the oracle "
               "verifies them with `cryptography` called directly (RSA-PSS salt = digest length, raw r||s ECDSA)",
               "SHA-2 and AES-CBC of the model/independent checker are the Lean reference implementations (validated by C09 each run)",
-              "certificate internals, SRK table array / SRK data of container version 2, PQC and SM2 keys are outside the model "
-              "(v2 SRK assets are an opaque block whose placement and coverage are checked)",
+              "second (PQC) signature, second certificate key, SM2 keys are outside the model; for version-2 containers with more than one "
+              "SRK table the SRK assets are an opaque block whose placement and coverage are checked",
               "Python bytearray slice assignment semantics in AHABContainer.export / SignatureBlock.export (modelled as concatenation; "
               "compared byte for byte on every case)",
               "BinaryImage export/validate = the C16 model (Model/BinImage.lean)")
@@ -1401,31 +1401,32 @@ def run(ck):
                             "every used_srk_id, revoke masks 0..15, fuse/sw versions at limits, optional blob + encrypted images) plus random "
                             "extra cases; non-trivial = distinct configuration")
     cx.s_tamper = ck.stream("tamper", "single-bit flips over authenticated bytes of exported images (signed range incl. signature, image bytes, "
-                            "hash fields of unsigned containers; sampled + first/last byte of each class + every bit of one signed container "
-                            "header); non-trivial = distinct (image, bit)")
+                            "hash fields of unsigned containers, signed part and signature bytes of certificates; sampled + first/last byte of "
+                            "each class + every bit of one signed container header); non-trivial = distinct (image, bit)")
     cx.s_verify = ck.stream("verify_range", "one attribute of a valid unsigned image at a time set to legal extreme values and to the first illegal ones "
                             "(container flags/sw/fuse/length/tag/version, entry offset/size/load/entry/meta/flags/hash, signature-block offsets, "
                             "blob fields, image and container counts): verify() reports an error iff the model's verifier does; "
                             "non-trivial = distinct perturbed state")
     cx.s_fields = ck.stream("fields", "create_flags (v1/v2, every hash tag), create_meta, get_container_offset -2..6, ImageArrayEntry.parse on random "
                             "blocks, SRKTable.parse on exported tables of the four key types and their single-bit corruptions; non-trivial = distinct input")
-    cx.s_cert = ck.stream("cert", "chain of trust SRK -> certificate -> container on the certificate-capable families (ECC-256/384/521): the good "
-                          "chain and four broken links (container signed by the SRK despite the permission, by the certificate key without the "
+    cx.s_cert = ck.stream("cert", "chain of trust SRK -> certificate -> container on the certificate-capable families (ECC-256/384/521, RSA-2048): the "
+                          "good chain (with and without UUID / permission data) and four broken links (container signed by the SRK despite the permission, by the certificate key without the "
                           "permission, certificate signed by another SRK, certificate key of another type), the stand-alone certificate "
                           "(parse/export round trip, wrong length field +8/-8/+1, wrong complement of the permissions) and the certificate "
                           "model (export bytes, signed part, parse); non-trivial = distinct input")
     quick = ck.quick
+    _QUICK[0] = bool(quick)
     import time as _t
     tm_ = {"start": _t.time()}
     fields_stream(cx)
     tm_["fields"] = _t.time()
     cert_stream(cx)
     tm_["cert"] = _t.time()
-    verify_stream(cx, ck.budget(1, 12))
+    verify_stream(cx, ck.budget(3, 12))
     tm_["verify_range"] = _t.time()
     combos = [(r, tm) for r in rows_l for tm in TARGET_MEMS]
     rng.shuffle(combos)
-    extra = ck.budget(12, 1500)
+    extra = ck.budget(24, 1500)
     n = 0
     infos = []
     for row, tm in combos:
@@ -1435,7 +1436,7 @@ def run(ck):
         if info:
             infos.append((case, info))
     cert_rows = [r for r in rows_l if r.get("cert")]
-    for i in range(ck.budget(6, 60) if cert_rows else 0):          # certificates: every key type, with and without blob
+    for i in range(ck.budget(10, 60) if cert_rows else 0):          # certificates: every key type, with and without blob
         row = cert_rows[i % len(cert_rows)]
         case = gen_case(rng, row, rng.choice(TARGET_MEMS), quick, {"ver": 2, "srk": KEYTYPES[i % len(KEYTYPES)], "cert": True})
         info = run_case(cx, case, f"c{n}")
@@ -1458,7 +1459,12 @@ def run(ck):
                 and not f_encrypted_size_alignment(ci[0], ci[1]["row"])]
     plain_first = sorted(cli_pool, key=lambda ci: any(c["srk"] or c["blob"] for c in ci[0]["containers"]))
     n_cli = ck.budget(6, 80)
-    cli_stream(cx, plain_first[: n_cli // 3] + [ci for ci in cli_pool if any(c["srk"] for c in ci[0]["containers"])][: n_cli - n_cli // 3])
+    signed_pool = [ci for ci in cli_pool if any(c["srk"] for c in ci[0]["containers"])]
+    # a version-2 signed container (one SRK table) and a container with a certificate are always among the picks
+    first_ = ([ci for ci in signed_pool if ci[0]["ver"] == 2 and not any(c.get("cert") for c in ci[0]["containers"])][:1]
+              + [ci for ci in signed_pool if any(c.get("cert") for c in ci[0]["containers"])][:1])
+    signed_pool = first_ + [ci for ci in signed_pool if not any(ci is f_ for f_ in first_)]
+    cli_stream(cx, plain_first[: n_cli // 3] + signed_pool[: n_cli - n_cli // 3])
     tm_["cli"] = _t.time()
     # ---------------- tampering
     if drv is not None:
